@@ -10,6 +10,10 @@ KEYS = ["a", "b", "c", "ab"]
 VALUES = [1, 2, 7, 0, 0, "x", "y", None, ""]      # (no bytes: the facade stores them encoded, the raw snapshots of the observer would differ)
 
 
+class _InnerBoom(Exception):
+    pass
+
+
 class Boom(Exception):
     pass
 
@@ -105,6 +109,11 @@ def run(case):
             nested = case["nested"]          # False | True/"fresh": a new context object per inner block | "same": the outer object re-entered
             async with uow as tx:
                 half = len(case["cmds"]) // 2
+                if not nested and len(case["cmds"]) % 4 == 1:
+                    # a false start: some writes, then an explicit rollback - and the block goes on; what follows is a transaction of its own
+                    for _, c in case["cmds"][:2]:
+                        await _apply(cache, c)
+                    await tx.rollback()
                 for i, (adv, c) in enumerate(case["cmds"]):
                     if adv: await asyncio.sleep(adv * TICK)
                     t = tick()
@@ -115,12 +124,21 @@ def run(case):
                             inner = cache.transaction(mode={TransactionMode.FAST: TransactionMode.LOCKED, TransactionMode.LOCKED: TransactionMode.SERIALIZABLE,
                                                             TransactionMode.SERIALIZABLE: TransactionMode.FAST}[mode])
                         else: inner = cache.transaction(mode=mode)
-                        async with inner:
-                            if nested == "same_twice":
-                                async with uow:
+                        if nested == "fresh" and (i + len(case["cmds"])) % 3 == 0:
+                            # the inner block is left by an exception that is caught inside the outer block: the transaction goes on
+                            try:
+                                async with inner:
                                     r = await _apply(cache, c)
-                            else:
-                                r = await _apply(cache, c)
+                                    raise _InnerBoom()
+                            except _InnerBoom:
+                                pass
+                        else:
+                            async with inner:
+                                if nested == "same_twice":
+                                    async with uow:
+                                        r = await _apply(cache, c)
+                                else:
+                                    r = await _apply(cache, c)
                     else:
                         r = await _apply(cache, c)
                     steps.append([t, c, r, snap()])
